@@ -4,6 +4,7 @@ import (
 	"context"
 	"fmt"
 
+	"github.com/Flowpack/prunner/definition"
 	"github.com/Flowpack/prunner/store"
 	"math/rand"
 	"reflect"
@@ -576,6 +577,119 @@ func RunPersistCase(seed int64, slowSave bool) *HistResult {
 		waitSaved("completion of job B", func(s *core.SaveRecord) bool { j, ok := s.Jobs[idB]; return ok && j.Completed })
 	}
 	res.Evaluations["C11"] += 4
+	res.Events = sys.Log.Len()
+	return res
+}
+
+// RunPersistKindsCase: "every acknowledged change reaches the store within the persist interval without an explicit
+// save" for every KIND of change, one at a time with nothing else going on (so that no other change's persist request can
+// carry it along): start, queue, replace (new job + the replaced one canceled), cancel of a waiting job, a task ending,
+// cancel of a running job, a delayed job being accepted and started by its timer.
+func RunPersistKindsCase(seed int64, delayed bool) *HistResult {
+	res := &HistResult{Seed: seed, Situations: map[string]map[string]struct{}{}, Evaluations: map[string]int{}}
+	find := func(sig, format string, args ...any) {
+		res.Findings = append(res.Findings, Finding{Props: []string{"C11"}, Sig: sig, Detail: fmt.Sprintf(format, args...), Step: -1})
+	}
+	def := definition.PipelineDef{Concurrency: 1, QueueStrategy: definition.QueueStrategyReplace, Tasks: map[string]definition.TaskDef{
+		"a": {Script: []string{"true"}}, "b": {Script: []string{"true"}, DependsOn: []string{"a"}}}, SourcePath: "gen"}
+	if delayed {
+		def.StartDelay = 300 * time.Millisecond
+		one := 1
+		def.QueueLimit = &one
+	}
+	defs := &definition.PipelinesDef{Pipelines: map[string]definition.PipelineDef{"p": def}}
+	rec := &core.RecStore{}
+	sys, err := core.NewSys(defs, rec, core.NewMemOutputStore())
+	if err != nil {
+		res.Inconclusive = err.Error()
+		return res
+	}
+	defer sys.Close()
+	defer DrainAll(sys)
+	var beats atomic.Int64
+	stop := make(chan struct{})
+	go func() {
+		tk := time.NewTicker(10 * time.Millisecond)
+		defer tk.Stop()
+		for {
+			select {
+			case <-stop:
+				return
+			case <-tk.C:
+				beats.Add(1)
+			}
+		}
+	}()
+	defer close(stop)
+	const limitBeats = 1000 // 10 s for a 3 s interval
+	waitSaved := func(what string, pred func(s *core.SaveRecord) bool) bool {
+		start := beats.Load()
+		n0 := rec.SaveCount()
+		for beats.Load()-start < limitBeats {
+			saves := rec.Saves()
+			if len(saves) > 0 {
+				// the store holds what the LAST successful save wrote
+				if s := saves[len(saves)-1]; s.Err == nil && pred(s) {
+					res.sit("C11", fmt.Sprintf("persisted: %s (delayed pipeline=%v)", what, delayed))
+					res.Evaluations["C11"]++
+					return true
+				}
+			}
+			time.Sleep(5 * time.Millisecond)
+		}
+		find("C11:change-not-persisted-within-interval", "%s was acknowledged, nothing else happened afterwards, and the store still does not hold it 10 s later (persist interval 3 s; %d saves since)", what, rec.SaveCount()-n0)
+		return false
+	}
+	sched := func() string {
+		id, cls := sys.Schedule(0, "p", nil, "u")
+		if cls != "ok" {
+			res.Inconclusive = "schedule: " + cls
+		}
+		return id
+	}
+	has := func(id string, f func(j store.PersistedJob) bool) func(s *core.SaveRecord) bool {
+		return func(s *core.SaveRecord) bool { j, ok := s.Jobs[id]; return ok && f(j) }
+	}
+	any := func(store.PersistedJob) bool { return true }
+	a := sched()
+	if res.Inconclusive != "" {
+		return res
+	}
+	if delayed {
+		waitSaved("a job accepted under a start delay", has(a, any))
+		waitSaved("the start of that job by its timer", has(a, func(j store.PersistedJob) bool { return j.Start != nil }))
+	} else {
+		waitSaved("a job that starts at once", has(a, func(j store.PersistedJob) bool { return j.Start != nil }))
+	}
+	b := sched()
+	waitSaved("a job that is queued", has(b, any))
+	c := sched()
+	if res.Inconclusive != "" {
+		return res
+	}
+	ok1 := waitSaved("a job that replaces a waiting one", has(c, any))
+	if ok1 {
+		waitSaved("the cancellation of the replaced job", has(b, func(j store.PersistedJob) bool { return j.Canceled }))
+	}
+	if sys.Cancel(0, c) == "ok" {
+		waitSaved("the cancel of a waiting job", has(c, func(j store.PersistedJob) bool { return j.Canceled }))
+	}
+	// a task of the running job ends
+	for i := 0; i < 2000 && !sys.Gates.AtGate(a, "a"); i++ {
+		time.Sleep(time.Millisecond)
+	}
+	sys.Release(a, "a", core.Outcome{Kind: core.OutOK})
+	waitSaved("the end of a task", has(a, func(j store.PersistedJob) bool {
+		for _, t := range j.Tasks {
+			if t.Name == "a" && t.Status == "done" {
+				return true
+			}
+		}
+		return false
+	}))
+	if sys.Cancel(0, a) == "ok" {
+		waitSaved("the cancel of a running job", has(a, func(j store.PersistedJob) bool { return j.Canceled && j.Completed }))
+	}
 	res.Events = sys.Log.Len()
 	return res
 }
